@@ -104,7 +104,10 @@ def drift_cases(draw):
         k = draw(st.sampled_from(["pulse", "pulse", "delay", "modify"]))
         if k == "pulse":
             steps.append(dict(k="pulse", d=draw(st.sampled_from([20, 52, 100, 200])),
-                              phase=draw(st.sampled_from([0.0, 1.0, math.pi / 2, -0.7]))))
+                              phase=draw(st.sampled_from([0.0, 1.0, math.pi / 2, -0.7])),
+                              # a shift of the reference the user asks for: it must survive the
+                              # correction (later pulses are rotated by it on both sides)
+                              pps=draw(st.sampled_from([0.0, 0.0, 1.1, -0.6, math.pi / 2]))))
         elif k == "delay":
             steps.append(dict(k="delay", d=draw(st.sampled_from([16, 100, 400]))))
         else:
@@ -151,7 +154,8 @@ def check_drift(case, ctx: Ctx):
         seq.enable_eom_mode("ch", case["amp_on"], 0.0, case["opt_off"], correct_phase_drift=True)
         for s in case["steps"]:
             if s["k"] == "pulse":
-                seq.add_eom_pulse("ch", s["d"], s["phase"], correct_phase_drift=True)
+                seq.add_eom_pulse("ch", s["d"], s["phase"], post_phase_shift=s.get("pps", 0.0),
+                                  correct_phase_drift=True)
             elif s["k"] == "delay":
                 seq.delay(s["d"], "ch")
             else:
@@ -179,10 +183,12 @@ def check_drift(case, ctx: Ctx):
     sb.declare_channel("ch", "rydberg_global")
     user_phases = []
     if case["pre_pulse"]:
-        user_phases.append(0.3)
-    user_phases += [s["phase"] for s in case["steps"] if s["k"] == "pulse"]
+        user_phases.append((0.3, 0.0))
+    user_phases += [(s["phase"], s.get("pps", 0.0)) for s in case["steps"] if s["k"] == "pulse"]
     if case["disable"]:
-        user_phases.append(0.2)
+        user_phases.append((0.2, 0.0))
+    if any(p[1] for p in user_phases[:-1]):
+        ctx.label("post_phase_shift_before_later_pulse")
     k = 0
     t = 0
     for s in cs.slots:
@@ -191,7 +197,8 @@ def check_drift(case, ctx: Ctx):
                 sb.delay(s.ti - t, "ch")
             amp = float(s.type.amplitude.samples.as_array()[0])
             det = float(s.type.detuning.samples.as_array()[0])
-            sb.add(Pulse.ConstantPulse(s.tf - s.ti, amp, det, user_phases[k]), "ch", protocol="no-delay")
+            sb.add(Pulse.ConstantPulse(s.tf - s.ti, amp, det, user_phases[k][0],
+                                       post_phase_shift=user_phases[k][1]), "ch", protocol="no-delay")
             k += 1
             t = s.tf
     T = sa.get_duration()
